@@ -61,4 +61,85 @@ theorem scan_shape_known : Nsq.Gen.Life.scanCalls = scanOneSection := by decide
 
 theorem tree_scan_atomic : treeScanAtomic = true := by decide
 
+/-! ### F48: map insert and heap push of a delivery / TOUCH are one critical section (`St.pushAtomic`) -/
+
+/-- model parameter `St.pushAtomic` for this tree: `pushInFlightMessage` pushes the heap entry between its `Lock`
+and its final `Unlock`, and neither caller has a second heap-push section -/
+def treePushAtomic : Bool :=
+  Nsq.Gen.Life.pushInflightCalls == ["Lock", "Unlock", "Push", "Unlock"] &&
+  Nsq.Gen.Life.startInflightCalls == ["pushInFlightMessage"] &&
+  Nsq.Gen.Life.touchPushCalls == ["popInFlightMessage", "removeFromInFlightPQ", "pushInFlightMessage"]
+
+/-- F48 is committed (/repo 88fd245): only the one-section shape is accepted.  `Lock, Unlock, Push, Unlock`: the
+first `Unlock` is the early return "ID already in flight" (nothing inserted, nothing pushed — model: the
+`o ∈ s.map` branch), the `Push` sits before the final `Unlock` -/
+theorem push_shape_known :
+    Nsq.Gen.Life.pushInflightCalls = ["Lock", "Unlock", "Push", "Unlock"] ∧
+    Nsq.Gen.Life.startInflightCalls = ["pushInFlightMessage"] ∧
+    Nsq.Gen.Life.touchPushCalls = ["popInFlightMessage", "removeFromInFlightPQ", "pushInFlightMessage"] := by decide
+
+theorem tree_push_atomic : treePushAtomic = true := by decide
+
+/-! ### fixes/F27: REQ / TOUCH hold the channel's read lock (`St.ansLock`) -/
+
+def reqSeqF18 : List String :=
+  ["call:c.exitMutex.RLock", "defer:RUnlock", "call:c.popInFlightMessage", "call:c.removeFromInFlightPQ", "call:c.put",
+   "call:c.StartDeferredTimeout"]
+def reqSeqF27 : List String :=
+  ["call:c.exitMutex.RLock", "defer:RUnlock", "call:c.RLock", "defer:RUnlock", "call:c.popInFlightMessage",
+   "call:c.removeFromInFlightPQ", "call:c.put", "call:c.StartDeferredTimeout"]
+def touchSeqF18 : List String :=
+  ["call:c.exitMutex.RLock", "defer:RUnlock", "call:c.popInFlightMessage", "call:c.removeFromInFlightPQ",
+   "call:c.pushInFlightMessage"]
+def touchSeqF27 : List String :=
+  ["call:c.exitMutex.RLock", "defer:RUnlock", "call:c.RLock", "defer:RUnlock", "call:c.popInFlightMessage",
+   "call:c.removeFromInFlightPQ", "call:c.pushInFlightMessage"]
+
+/-- model parameter `St.ansLock` for this tree: both answers take `c.RLock` (deferred unlock: held until they
+return) after `exitMutex.RLock` and before `popInFlightMessage` -/
+def treeAnsLock : Bool :=
+  Nsq.Gen.Life.reqLockSeq == reqSeqF27 && Nsq.Gen.Life.touchLockSeq == touchSeqF27
+
+/-- exactly two shapes, consistently over both functions: the committed one (F18 only: `ansLock = false`, finding
+`empty-races-req-message-survives` open) or the proposal fixes/F27 (`ansLock = true`) -/
+theorem answers_channel_lock_shape :
+    (Nsq.Gen.Life.reqLockSeq = reqSeqF18 ∧ Nsq.Gen.Life.touchLockSeq = touchSeqF18) ∨
+    (Nsq.Gen.Life.reqLockSeq = reqSeqF27 ∧ Nsq.Gen.Life.touchLockSeq = touchSeqF27) := by decide
+
+/-- `Channel.Empty` holds the channel's write lock (deferred unlock) over `initPQ` and everything after it: the model's
+three sections of Empty are one `c.Lock` critical section (`emptyRunning` ⇒ `reqPop`/`touchPop` disabled with `ansLock`) -/
+theorem empty_holds_channel_lock :
+    Nsq.Gen.Life.emptyLockSeq = ["call:c.Lock", "defer:Unlock", "call:c.initPQ"] := by decide
+
+/-- no function of nsqd/ acquires a lock it may already hold (directly or through any callee the call graph resolves):
+in particular no callee of `RequeueMessage` / `TouchMessage` takes `c.RLock` again — a second read lock while
+`Empty` waits for the write lock would deadlock (sync.RWMutex blocks new readers behind a waiting writer).
+With fixes/F27 applied the relation gains no edge at all (`Channel.RWMutex → inFlightMutex/deferredMutex` exist through
+`Empty → initPQ`); a recursive acquisition would add the pair `(Channel.RWMutex, Channel.RWMutex)`. -/
+theorem no_recursive_lock : Nsq.Gen.Life.lockEdges.all (fun e => e.1 != e.2) = true := by decide
+
+/-! ### audit B22: what the acyclicity fact rests on -/
+
+/-- the calls the extractor could NOT follow (function-typed fields): pinned, so that a new unresolved call site —
+which the acyclicity theorem would silently not cover — breaks this tie and is looked at.  Each of the eight was
+reviewed: `deleteCallback` (both) runs in its own goroutine (`go c.deleter.Do`, `go t.deleter.Do`-style: nothing of
+the caller is held), `ctxCancel`/`exitFunc`/`logf` take no nsqd lock, `connectCallback` is called by `lookupPeer.Command`
+from `lookupLoop`/`queryLookupd` with no nsqd mutex held. -/
+theorem unresolved_calls_pinned :
+    Nsq.Gen.Life.lockEdgesUnresolved =
+      ["Channel.RemoveClient$1: c.deleteCallback(...)", "NSQD.Exit: n.ctxCancel(...)", "NSQD.Main$6: exitFunc(...)",
+       "NSQD.Main$7: exitFunc(...)", "NSQD.Main$8: exitFunc(...)", "Topic.DeleteExistingChannel$13: t.deleteCallback(...)",
+       "lookupPeer.Command: lp.connectCallback(...)", "lookupPeer.Connect: lp.logf(...)"] := by decide
+
+/-- must-hold edges: the nestings the models RELY on (deleting one of these acquisitions would make the relation
+smaller, hence still acyclic — but the model would be wrong): Empty resets both structures under `c.Lock`; REQ/TOUCH and
+the scans work under `exitMutex.RLock`; AddClient/RemoveClient take `c.Lock` under `exitMutex`; Exit closes the topics
+under the NSQD lock; a topic closes/creates its channels under its own lock; GetMetadata reads a topic under the NSQD lock -/
+theorem must_hold_edges :
+    [("Channel.RWMutex", "Channel.inFlightMutex"), ("Channel.RWMutex", "Channel.deferredMutex"),
+     ("Channel.exitMutex", "Channel.inFlightMutex"), ("Channel.exitMutex", "Channel.deferredMutex"),
+     ("Channel.exitMutex", "Channel.RWMutex"), ("NSQD.RWMutex", "Topic.RWMutex"), ("NSQD.RWMutex", "Channel.exitMutex"),
+     ("Topic.RWMutex", "Channel.exitMutex"), ("Topic.RWMutex", "Channel.RWMutex")].all
+      (fun e => Nsq.Gen.Life.lockEdges.contains e) = true := by decide
+
 end Nsq.Tie.Life
